@@ -12,7 +12,7 @@ import sys
 import shutil
 
 V = os.path.dirname(os.path.dirname(os.path.abspath(__file__)))
-WT = '/var/tmp/verif-selftest-wt'
+WT = '/var/tmp/verif-selftest-wt-%d' % os.getpid()
 
 
 def sh(cmd, **kw):
